@@ -123,7 +123,7 @@ def line (s : String) : String :=
   | ["accset", n, a, cs] => match n.toNat?, a.toNat?, parseNatList? cs with
     | some n, some a, some cs =>
       let st := cs.foldl CookieSel.setCookie (CookieSel.startAcc n a)
-      s!"{CookieSel.handshakeCookie ErgoVerif.Gen.Acceptor.optionsReadPerConnection n st} {st.field}"
+      s!"{CookieSel.handshakeCookie true n st} {st.field}"   -- the RULE (a later connection uses the cookie set last), whatever shape the code has
     | _, _, _ => "bad-op"
   | ["cookie", n, a, r] => match n.toNat?, a.toNat?, r.toNat? with
     | some n, some a, some r => s!"{CookieSel.acceptorCookie n a} {CookieSel.routeCookie n r}"
